@@ -63,7 +63,11 @@ public:
 	}
 
 	value_type &push_back(const T &element) {
-		_ensure_capacity(_size + 1);
+		// The argument may refer to one of our own elements (v.push_back(v[0])):
+		// growing moves the elements and releases the storage it points into.
+		if(_size == _capacity)
+			return push_back(T(element));
+
 		auto container = _get_container();
 		T *pointer = new (&container[_size]) T(element);
 		_size++;
